@@ -87,9 +87,11 @@ func c17Sem(t *tr.Writer, id int, c c17Case) {
 	next := 0
 	dones := map[int]chan struct{}{}
 	var wg sync.WaitGroup
+	var lastStart time.Time
 	startCall := func() int {
 		next++
 		cid := next
+		lastStart = time.Now()
 		d := make(chan struct{})
 		dones[cid] = d
 		t.Emit(tr.Rec{"ev": "acqB", "c": cid, "t": us()})
@@ -170,6 +172,14 @@ func c17Sem(t *tr.Writer, id int, c c17Case) {
 		case "start":
 			settle(startCall())
 		case "finish":
+			finish(op.J, op.O)
+		case "finishAt":
+			// a request finishes just when the latest queued request's wait runs out (op.Us: offset in us)
+			if c.Timeout > 0 {
+				if d := time.Until(lastStart.Add(time.Duration(c.Timeout+op.Us) * time.Microsecond)); d > 0 {
+					time.Sleep(d)
+				}
+			}
 			finish(op.J, op.O)
 		case "wait":
 			if c.Timeout > 0 {
@@ -408,6 +418,20 @@ func runC17(a Args) tr.Summary {
 			}
 		}
 		cases = append(cases, c17Case{Kind: "sem", Max: 1 + rng.Intn(3), Timeout: 20000, Ops: ops})
+	}
+	// a permit released just when a queued request's wait runs out: the request takes it or gives up, the
+	// permit is not lost either way
+	nSemRace := 6
+	if a.Tier == "thorough" {
+		nSemRace = 40
+	}
+	for i := 0; i < nSemRace; i++ {
+		ops := []c17Op{{Op: "start"}}
+		for j := 0; j < 14; j++ {
+			ops = append(ops, c17Op{Op: "start"}, c17Op{Op: "finishAt", J: 0, O: "ok", Us: rng.Intn(240) - 160})
+		}
+		ops = append(ops, c17Op{Op: "quiesce"})
+		cases = append(cases, c17Case{Kind: "sem", Max: 1 + i%2, Timeout: 2500, Ops: ops})
 	}
 	for i := 0; i < nRate; i++ {
 		rate := []int{100, 200, 250, 500}[rng.Intn(4)]
